@@ -70,10 +70,12 @@ type world struct {
 	outsider common.Address
 }
 
-var worlds = map[int]*world{}
+var worlds = map[[2]int]*world{}
 
-func getWorld(n int) *world {
-	if w, ok := worlds[n]; ok {
+// getWorld: term 1 has the n deputies D0..D(n-1); term 0 has n0 deputies: D0.. and, when n0 > n, extra nodes that are
+// deputies of term 0 only (so the deputy COUNT changes at the term switch, and the parent's miner may be one of them).
+func getWorld(n, n0 int) *world {
+	if w, ok := worlds[[2]int{n, n0}]; ok {
 		return w
 	}
 	params.TermDuration = termDuration
@@ -82,11 +84,22 @@ func getWorld(n int) *world {
 	for i := 0; i < n; i++ {
 		w.deps = append(w.deps, addr(0xd0, i))
 	}
+	term0 := append([]common.Address(nil), w.deps...)
+	if n0 < n {
+		term0 = term0[:n0]
+	}
+	for i := n; i < n0; i++ {
+		term0 = append(term0, addr(0xee, i-n)) // the first extra node is w.outsider
+	}
 	l := &loader{blocks: map[uint32]*types.Block{}}
-	l.blocks[0] = &types.Block{Header: &types.Header{Height: 0}, DeputyNodes: nodes(w.deps)}
+	l.blocks[0] = &types.Block{Header: &types.Header{Height: 0}, DeputyNodes: nodes(term0)}
 	l.blocks[termDuration] = &types.Block{Header: &types.Header{Height: termDuration}, DeputyNodes: nodes(w.deps)}
-	w.dm = deputynode.NewManager(n, l)
-	worlds[n] = w
+	max := n
+	if n0 > max {
+		max = n0
+	}
+	w.dm = deputynode.NewManager(max, l)
+	worlds[[2]int{n, n0}] = w
 	return w
 }
 
@@ -116,7 +129,11 @@ func (t tuple) height() uint32 {
 }
 
 func eval(t tuple) map[string]interface{} {
-	w := getWorld(t.N)
+	n0 := t.N
+	if t.Kind == "reward" {
+		n0 = t.N + 1 + int(t.Parent%2) // the previous term had one or two deputies more
+	}
+	w := getWorld(t.N, n0)
 	h := t.height()
 	parentMiner := w.outsider
 	if t.Pr < t.N {
